@@ -21,6 +21,7 @@ type c16Case struct {
 	Byte  int    `json:"byte,omitempty"`  // mutate: replacement byte for "set"
 	Pad   int    `json:"pad,omitempty"`   // scan: extra characters in the definition (shifts the ORIGIN block in the stream)
 	Mix   int    `json:"mix,omitempty"`   // scan: line i of the ORIGIN block ends in CRLF iff bit (i mod 7) of Mix is set (a block with mixed line ends)
+	Trail int    `json:"trail,omitempty"` // scan: this many blanks behind the residues of ORIGIN lines (which lines: Mix, 0 = all)
 	Deliv int    `json:"deliv,omitempty"` // scan, stream: how the reader hands the bytes over (deliveryNames)
 	Lens  []int  `json:"lens,omitempty"`  // stream: residue counts of the records of one stream (record k uses Alpha rotated by k)
 }
@@ -162,7 +163,25 @@ func c16Check(c c16Case) *Violation {
 			name string
 			r    scanResult
 		}{{"LF", lf}, {"CRLF", cr}}
-		if c.Mix != 0 {
+		if c.Trail > 0 {
+			// blanks behind the residues of a line (fixed-width exports pad their lines): such blocks take the slow path
+			// and read like the canonical block
+			var padded strings.Builder
+			for i, line := range strings.SplitAfter(want, "\n") {
+				if line != "" && (c.Mix == 0 || c.Mix>>(uint(i)%7)&1 == 1) {
+					line = strings.TrimSuffix(line, "\n") + strings.Repeat(" ", c.Trail) + "\n"
+				}
+				padded.WriteString(line)
+			}
+			pt := c16RecordPad(c.Len, padded.String(), c.Pad)
+			runs = append(runs, struct {
+				name string
+				r    scanResult
+			}{fmt.Sprintf("%d-blanks-behind-lines(%b) LF", c.Trail, c.Mix), scanOne(pt, c.Deliv)}, struct {
+				name string
+				r    scanResult
+			}{fmt.Sprintf("%d-blanks-behind-lines(%b) CRLF", c.Trail, c.Mix), scanOne(crlf(pt), c.Deliv)})
+		} else if c.Mix != 0 {
 			// the slow path reads line by line: which lines end in CRLF is a matter of each line
 			var mixed strings.Builder
 			for i, line := range strings.SplitAfter(want, "\n") {
@@ -431,6 +450,19 @@ func TestC16(t *testing.T) {
 		}
 	}
 	em.done(true)
+	// padded lines: 1..200 blanks behind the residues of all lines, of the first, of the last line
+	etr := enumPart(t, c16Prop, st, "padded-lines")
+	for _, n := range []int{1, 59, 60, 61, 120, 130, 600} {
+		lines := (n + 59) / 60
+		for _, k := range []int{1, 2, 4, 5, 6, 7, 10, 21, 25, 52, 57, 100, 180, 200} {
+			for _, mix := range []int{0, 1, 1 << (uint(lines-1) % 7)} {
+				if !etr.try(c16Case{Mode: "scan", Len: n, Alpha: "acgt", Trail: k, Mix: mix}) {
+					return
+				}
+			}
+		}
+	}
+	etr.done(true)
 	// deliveries: the same records through readers that hand the bytes over in other portions (one byte at a time, 7,
 	// 4095, 4096+1, half of what is asked for, ragged, last bytes together with io.EOF)
 	e7 := enumPart(t, c16Prop, st, "deliveries")
